@@ -15,6 +15,17 @@ from dst.rec import REC, snap_value
 GRID = 0.125  # dyadic grid unit
 
 
+def log_copy(v):
+    """Deep copy for the event log; process objects become markers."""
+    if isinstance(v, dict):
+        return {k: log_copy(x) for k, x in v.items()}
+    if isinstance(v, (list, tuple)):
+        return type(v)(log_copy(x) for x in v)
+    if isinstance(v, Process):
+        return ('<P>', getattr(v, 'name', '?'))
+    return copy.deepcopy(v)
+
+
 def _get(states, path):
     for k in path:
         states = states[k]
@@ -110,7 +121,7 @@ class ScriptedMixin:
         if REC.active:
             REC.ev('STEPNU' if self.is_step() else 'NU',
                    uid=uid, n=k, ts=timestep, view=view, snap=snap,
-                   update=copy.deepcopy(update))
+                   update=log_copy(update))
         self._k += 1
         return update
 
@@ -219,3 +230,83 @@ class KStep(ScriptedMixin, Step):
         for v in s.get('vars', []):
             tot += states['acc'][v]
         return {'out': {s['name'] + '_n': k + 1, s['name'] + '_sum': tot}}
+
+
+# ---------------------------------------------------------------------------
+# flow steps (C05)
+# ---------------------------------------------------------------------------
+
+def _digest(obj):
+    import hashlib
+    return int.from_bytes(
+        hashlib.blake2b(repr(obj).encode(), digest_size=6).digest(), 'big')
+
+
+class FStep(ScriptedMixin, Step):
+    """A step that publishes a token [name, phase counter, digest of what it
+    read] into the shared store `tok` with the `set` updater.
+
+    spec:
+      name   step name (also its token variable)
+      reads  names of the steps whose tokens it reads (dependencies, or
+             predecessors for flow-less derivers)
+      vars   accumulators (port `acc`) it reads
+      kill   optional {'at': k, 'pick': i}: in its k-th run delete the i-th
+             compartment it sees in port `world` (modulo their number)
+      gen    optional {'at': k, 'key': name, 'steps': [spec...], 'flow': {...}}:
+             in its k-th run generate a compartment holding new steps
+    """
+    name = 'fstep'
+
+    def __init__(self, parameters=None):
+        super().__init__(parameters)
+        self._sinit()
+
+    def ports_schema(self):
+        s = self.spec
+        schema = self._base_schema()
+        names = [s['name']] + [r for r in s.get('reads', []) if r != s['name']]
+        # variables of the steps it will generate are declared up front: a
+        # generated party only declares variables that exist or lie inside
+        # its own compartment
+        names += [g['name'] for g in (s.get('gen') or {}).get('steps', [])]
+        schema['tok'] = {
+            n: {'_default': 0, '_updater': 'set', '_emit': True} for n in names}
+        noemit = s.get('noemit') or []
+        schema['acc'] = {
+            v: {'_default': 0, '_emit': v not in noemit} for v in s.get('vars', [])}
+        if s.get('kill') or s.get('gen'):
+            schema['world'] = {'*': {'alive': {'_default': 1, '_emit': True}}}
+        return _perm_schema(self, schema)
+
+    def _script_update(self, k, timestep, states):
+        s = self.spec
+        seen = [states['acc'].get(v) for v in s.get('vars', [])]
+        seen += [states['tok'].get(r) for r in s.get('reads', [])]
+        token = [s['name'], k, _digest(seen)]
+        up = {'tok': {s['name']: token}}
+        kill = s.get('kill')
+        world = {}
+        if kill and kill['at'] == k:
+            kids = sorted(states['world'].keys())
+            kids = [c for c in kids if c in kill.get('among', kids)]
+            if kids:
+                world['_delete'] = [kids[kill['pick'] % len(kids)]]
+        gen = s.get('gen')
+        if gen and gen['at'] == k and gen['key'] not in states['world']:
+            steps = {}
+            topo = {}
+            flow = {}
+            for sp in gen['steps']:
+                steps[sp['name']] = FStep({'spec': sp, 'name': sp['name']})
+                topo[sp['name']] = {
+                    'tok': ('..', '..', 'tok'), 'acc': ('..', '..', 'acc'),
+                    'probe': ('..', '..', 'verif_probe')}
+                if sp.get('flow') is not None:
+                    flow[sp['name']] = [tuple(d) for d in sp['flow']]
+            world['_generate'] = [{
+                'key': gen['key'], 'processes': {}, 'steps': steps,
+                'flow': flow, 'topology': topo, 'initial_state': {}}]
+        if world:
+            up['world'] = world
+        return up
